@@ -16,7 +16,7 @@ import (
 var defaultOpaque = []string{
 	"runtime", "runtime/...", "reflect", "syscall", "os", "os/...", "net", "net/...", "internal/poll", "internal/syscall/...",
 	"internal/reflectlite", "internal/godebug", "internal/cpu", "internal/bisect", "internal/testlog", "internal/race",
-	"internal/runtime/...", "internal/synctest", "internal/oserror",
+	"internal/runtime/...", "internal/synctest",
 	"crypto/...", "log", "log/...", "testing", "testing/...", "encoding/json", "encoding/gob", "encoding/xml",
 	"go.uber.org/zap/...", "go.uber.org/zap", "go.uber.org/multierr", "go.uber.org/atomic",
 	"github.com/ipfs/go-log/v2", "github.com/ipfs/go-log/...",
